@@ -2,7 +2,8 @@
 from collections import defaultdict, deque
 
 from .extract import AnalysisBroken
-from .facts import estr, unwrap
+from .rule_l import atoms_at
+from .facts import estr, unwrap, walk
 from .rule_g import TK, Availability, CacheModel, classify_cache_use, index_root, iter_sites
 
 RM = "OpenVolumeMesh::ResourceManager"
@@ -44,6 +45,63 @@ def in_M(fb, f):
 def is_circ_step(fb, f):
     cls = f.cls or ""
     return f.d.get("op") in ("++", "--") and any(b.startswith("OpenVolumeMesh::BaseIterator<") for b in fb.bases(cls))
+
+
+def fallback_rule(ck, fb, cm):
+    """siblings agree: the branch taken without a cache scans the stored definitions, which hold each incident entity in
+    ONE orientation only; looking for a fixed orientation of a full entity (halfedge_handle(e, 0) == stored halfedge)
+    finds fewer entities than the cache-guided branch, which walks both orientations"""
+    import re
+    from .canon import Canon, eq_sides
+    ck.rule("G.fallback", "in code that runs when a bottom-up kind is NOT available (facts: has_k() false) no stored half-entity is compared for equality with a half-handle of fixed sub-index built from a full entity (halfedge_handle(e, 0), halfface_handle(f, 1), e.halfedge_handle(0), ...) unless the other sub-index is compared too: stored lists hold one orientation per incident entity")
+    has_names = set()
+    for c, k in cm.kinds.items():
+        for hid in k["has"]:
+            if hid in fb.fns:
+                has_names.add(fb.fns[hid].name + "()")
+        has_names.add(k["flag"])
+    if len(has_names) < 6:
+        raise AnalysisBroken("G.fallback: has_* predicates of the three caches not found (%s)" % sorted(has_names))
+    FIXED = re.compile(r"(half(edge|face)_handle\((.*), ([01])\)|\.half(edge|face)_handle\(([01])\))$")
+    n_cmp = 0
+    fired_canary = False
+    seen_fn = set()
+    for f in fb.fns.values():
+        if not f.has_cfg or f.where in seen_fn:
+            continue
+        if "/src/OpenVolumeMesh/" not in f.file and "/verif/fixtures/" not in f.file:
+            continue
+        seen_fn.add(f.where)  # one instantiation per template is enough
+        cn = None
+        for b in f.reach():
+            t = f.term(b)
+            if not t or not t.get("cond"):
+                continue
+            at = atoms_at(f, b)
+            if not any(a in has_names and pol is False for a, pol in at):
+                continue
+            cond = f.resolve(t["cond"])
+            found = []
+            for y in walk(cond):
+                if isinstance(y, dict) and y.get("op") in ("==", "!=") and y.get("k") in ("bin", "call"):
+                    e = eq_sides(y, y.get("op") == "==")
+                    if not e:
+                        continue
+                    cn = cn or Canon(f)
+                    for side in e:
+                        m = FIXED.search(cn.s(side))
+                        if m:
+                            found.append(m.group(4) or m.group(6))
+            if not found:
+                continue
+            n_cmp += 1
+            ok = {"0", "1"} <= set(found)
+            if "/verif/fixtures/" in f.file:
+                fired_canary = fired_canary or not ok
+                continue
+            (ck.ok if ok else lambda r, w, t_: ck.violate(r, w, t_, "G.fallback:%s" % f.pq))("G.fallback", f.loc(t), "%s: the cache-less branch compares stored half-entities with both orientations (sub-indices %s)" % (f.pq.split("OpenVolumeMesh::")[-1], sorted(set(found))))
+    ck.analysed["fallback_fixed_orientation_comparisons"] = n_cmp
+    ck.canary("canary_f (cache-less branch looking for one fixed orientation)", fired_canary)
 
 
 def run(ck, fb, fbd):
@@ -237,6 +295,8 @@ def run(ck, fb, fbd):
             else:
                 ck.ok("G.stale", f.loc(n), "%s: call of %s inside the stale window of %s does not read that flag" % (f.name, tgt.pq.split("::")[-1], k["flag"]))
         ck.count("stale_window_calls", n_window)
+
+    fallback_rule(ck, fb, cm)
 
     # ---------------- renumbering of caches/definitions must not depend on an unrelated kind (shared with C02)
     from . import lockstep
